@@ -133,9 +133,14 @@ def keyOf (h : IFib K V) (id : Nat) : Outcome K :=
   | some c => .ok c.key
   | none => .panic
 
-def findRoot (id : Nat) (roots : List FN) : Option FN := roots.find? fun r => r.id == id
+def findRoot (id : Nat) : List FN → Option FN
+  | [] => none
+  | r :: rs => if r.id = id then some r else findRoot id rs
 
-def eraseRoot (id : Nat) (roots : List FN) : List FN := roots.filter fun r => r.id != id
+/-- `cut(h.ext, x)` for the root `x` -/
+def eraseRoot (id : Nat) : List FN → List FN
+  | [] => []
+  | r :: rs => if r.id = id then rs else r :: eraseRoot id rs
 
 /-- `h.ext = x` -/
 def rotateTo (id : Nat) (roots : List FN) : Option (List FN) :=
@@ -151,11 +156,12 @@ def nextOf (id : Nat) (roots : List FN) : Option Nat :=
   | _ :: y :: _ => some y.id
 
 /-- `link(child, parent)` for a root `parent`: `parent.child = insert(parent.child, child); parent.degree++` -/
-def linkUnder (child : FN) (pid : Nat) (roots : List FN) : List FN :=
-  roots.map fun r =>
-    if r.id == pid then
-      { r with child := .node child.id child.degree child.mark child.child r.child, degree := r.degree + 1 }
-    else r
+def linkUnder (child : FN) (pid : Nat) : List FN → List FN
+  | [] => []
+  | r :: rs =>
+    if r.id = pid then
+      { r with child := .node child.id child.degree child.mark child.child r.child, degree := r.degree + 1 } :: rs
+    else r :: linkUnder child pid rs
 
 /-- parent of node `target`: `none` = not in the heap, `some none` = a root -/
 def parentOf (target : Nat) : List FN → Option (Option Nat)
@@ -436,19 +442,11 @@ def peekIndex (h : IFib K V) (i : Int) : Outcome (Option (K × V)) :=
       | none => .panic
     | _ => .panic
 
-def anyNode (h : IFib K V) (p : Cell K V → Bool) : List (Option Nat) → Outcome Bool
-  | [] => .ok false
-  | none :: rest => anyNode h p rest
-  | some id :: rest =>
-    match h.cells[id]? with
-    | some c => if p c then .ok true else anyNode h p rest
-    | none => .panic
-
 def containsKey (cmp : K → K → Int) (h : IFib K V) (key : K) : Outcome Bool :=
-  anyNode h (fun c => cmp c.key key == 0) h.nodes.toList
+  anyCell h.cells (fun c => cmp c.key key == 0) h.nodes.toList
 
 def containsValue (eq : V → V → Bool) (h : IFib K V) (val : V) : Outcome Bool :=
-  anyNode h (fun c => eq c.val val) h.nodes.toList
+  anyCell h.cells (fun c => eq c.val val) h.nodes.toList
 
 def step (cmp : K → K → Int) (eq : V → V → Bool) (h : IFib K V) : Op K V → Outcome (IFib K V × Res K V)
   | .insert i k v => (h.insert cmp i k v).map fun (h', b) => (h', .bool b)
